@@ -1,3 +1,4 @@
+import sys
 """Discharge obligations: z3 (python API) on a process pool, cvc5 / z3-4.8 CLI for what it leaves unknown."""
 import multiprocessing as mp
 import os
@@ -81,37 +82,82 @@ def cli_fallback(smt, timeout_s):
         os.unlink(path)
 
 
-def discharge(obls, timeout_ms=20000, jobs=None, fallback=True):
+def _work_cli(job):
+    name, smt, timeout_ms, _ = job
+    t0 = time.time()
+    v, nm = cli_fallback(smt, timeout_ms / 1000.0)
+    return dict(name=name, verdict=v, solver=nm or "cli", time=time.time() - t0, model=None, reason="")
+
+
+def _work_any(job):
+    return _work_cli(job[1:]) if job[0] == "cli" else _work(job[1:])
+
+
+def _discharge_base(obls, timeout_ms=20000, jobs=None, fallback=True):
+    """stage 1: short budget, definitions-last order; stage 2: the other two assertion orders (solver heuristics are
+    order sensitive); stage 3: full budget; stage 4: cvc5 / z3-4.8 on the SMT-LIB text"""
     jobs = jobs or int(os.environ.get("PYVC_JOBS", min(16, os.cpu_count() or 4)))
-    work = []
-    for i, ob in enumerate(obls):
-        work.append(("%d" % i, to_smt2(ob), min(timeout_ms, 3000) if ob.kind == "canary" else timeout_ms, ob.kind != "canary"))
-    if not work:
+    if not obls:
         return []
+    short = min(timeout_ms, 4000)
     ctx = mp.get_context("fork")
-    with ctx.Pool(jobs) as pool:
-        results = pool.map(_work, work, chunksize=1)
-    # second chance for what stayed unknown: other assertion orders (solver heuristics are order sensitive)
-    retry = [(i, ob) for i, (ob, r) in enumerate(zip(obls, results)) if r["verdict"] in ("unknown", "error") and ob.kind != "canary"]
-    if retry:
-        jobs2 = []
-        for i, ob in retry:
-            for order in (1, 2):
-                jobs2.append(("%d/%d" % (i, order), to_smt2(ob, order), timeout_ms, True))
+
+    def run(jobs_list):
         with ctx.Pool(jobs) as pool:
-            res2 = pool.map(_work, jobs2, chunksize=1)
-        for (i, ob), k in zip(retry, range(0, len(res2), 2)):
-            for r2 in res2[k : k + 2]:
-                if r2["verdict"] in ("sat", "unsat"):
-                    r2["solver"] += " (reordered)"
-                    results[i] = r2
+            return pool.map(_work, jobs_list, chunksize=1)
+
+    def tmo(ob, t):
+        return min(t, 3000) if ob.kind == "canary" else t
+
+    results = run([("%d" % i, to_smt2(ob, 0), tmo(ob, short), ob.kind != "canary") for i, ob in enumerate(obls)])
+    open_ = [i for i, (ob, r) in enumerate(zip(obls, results)) if r["verdict"] in ("unknown", "error") and ob.kind != "canary"]
+    if open_:
+        j2 = []
+        for i in open_:
+            for order in (1, 2):
+                j2.append(("z3", "%d/%d" % (i, order), to_smt2(obls[i], order), short, True))
+            j2.append(("cli", "%d/cli" % i, to_smt2(obls[i], 0), 2 * short, True))
+        with ctx.Pool(jobs) as pool:
+            r2 = pool.map(_work_any, j2, chunksize=1)
+        for n, i in enumerate(open_):
+            cands = r2[3 * n : 3 * n + 3]
+            for k, x in enumerate(cands):
+                if x["verdict"] in ("sat", "unsat"):
+                    if k < 2:
+                        x["solver"] += " (reordered)"
+                    if x["verdict"] == "sat" and x.get("model") is None:
+                        continue  # a CLI 'sat' carries no model: keep looking, the last stage re-derives it
+                    results[i] = x
                     break
+    open_ = [i for i in open_ if results[i]["verdict"] in ("unknown", "error")]
+    if open_ and timeout_ms > short:
+        r3 = run([("%d" % i, to_smt2(obls[i], 0), timeout_ms, True) for i in open_])
+        for i, x in zip(open_, r3):
+            if x["verdict"] in ("sat", "unsat"):
+                results[i] = x
+    left = [i for i, (ob, r) in enumerate(zip(obls, results)) if r["verdict"] in ("unknown", "error") and fallback and ob.kind != "canary"]
+    if left:
+        from concurrent.futures import ThreadPoolExecutor
+
+        texts = {i: to_smt2(obls[i], 0) for i in left}  # z3's API is not thread safe: serialise first
+
+        def fb(i):
+            return i, cli_fallback(texts[i], min(timeout_ms / 1000.0, 20))
+
+        with ThreadPoolExecutor(max_workers=jobs) as ex:
+            for i, (v, nm) in ex.map(fb, left):
+                if v in ("sat", "unsat"):
+                    results[i] = dict(results[i], verdict=v, solver=nm)
     out = []
-    for ob, job, r in zip(obls, work, results):
-        if r["verdict"] in ("unknown", "error") and fallback and ob.kind != "canary":
-            v, nm = cli_fallback(job[1], timeout_ms / 1000.0)
-            if v in ("sat", "unsat"):
-                r = dict(r, verdict=v, solver=nm)
+    for ob, r in zip(obls, results):
         r["obligation"] = ob
         out.append(r)
     return out
+
+
+def discharge(obls, timeout_ms=20000, jobs=None, fallback=True):
+    """all stages of _discharge_base, then the seed/order portfolio (pyvc/portfolio.py) on what is still unknown"""
+    from . import portfolio
+
+    out = _discharge_base(obls, timeout_ms, jobs, fallback)
+    return portfolio.rescue(out, to_smt2, timeout_ms, jobs) if fallback else out
